@@ -6,6 +6,7 @@ import (
 	"fmt"
 	"sort"
 	"strings"
+	"time"
 
 	"github.com/jrhy/s3db"
 	crdtpub "github.com/jrhy/s3db/kv/crdt"
@@ -32,7 +33,16 @@ var vOps = []string{
 	"w2:insert 1", "w2:insert 2", "w2:update 1", "w2:delete 1",
 	"w1:noop-update-absent", "w1:noop-insert-dup", "w1:noop-select", "w1:refresh", "w2:refresh",
 	"merge-open", "ro:reopen", "w1:tx-insert2-update1",
+	// only in the NULL-columns slice (the vMainOps events come first)
+	"w1:insert-nulls 1",
 }
+
+// vMainOps is the number of events of the main alphabet (a prefix of vOps).
+const vMainOps = 18
+
+// vNullOps: a row whose non-key columns are all NULL, deleted and inserted again (its delete marker then shows
+// the same column values as the new row)
+var vNullOps = []string{"w1:insert-nulls 1", "w1:delete 1", "w1:update 1", "w1:insert 2", "w1:delete 2", "w1:refresh"}
 
 type vCase struct {
 	Mode string `json:"mode"` // c11 | c12
@@ -49,6 +59,7 @@ func init() {
 	All["C11"] = &Check{Level: "model_checking", Run: func(r *engine.Run) int { return vRun(r, "c11") }}
 	All["C12"] = &Check{Level: "model_checking", Run: func(r *engine.Run) int { return vRun(r, "c12") }}
 	engine.RegisterWorker("versions", vWorker)
+	engine.RegisterWorker("c12-deadline", c12DeadlineWorker)
 }
 
 func vRun(r *engine.Run, mode string) int {
@@ -76,20 +87,37 @@ func vRun(r *engine.Run, mode string) int {
 		if epn < 4096 && r.Thorough() {
 			d = depth - 1 // multi-level trees one level shallower (the sequences are the same, only the tree shape differs)
 		}
-		for a := range vOps {
-			for b := range vOps {
+		for a := 0; a < vMainOps; a++ {
+			for b := 0; b < vMainOps; b++ {
 				cases = append(cases, engine.J(vCase{Mode: mode, EPN: epn, First: []int{a, b}, Depth: d}))
 			}
 			cases = append(cases, engine.J(vCase{Mode: mode, EPN: epn, First: []int{a}, Depth: 1}))
 		}
 	}
 	// the same sequences, one level shallower, on a table whose key is the last declared column
-	for a := range vOps {
-		for b := range vOps {
+	for a := 0; a < vMainOps; a++ {
+		for b := 0; b < vMainOps; b++ {
 			cases = append(cases, engine.J(vCase{Mode: mode, EPN: 4096, KeyLast: true, First: []int{a, b}, Depth: depth - 1}))
 		}
 	}
 	r.Bounds["key_last_column_depth"] = depth - 1
+	// a row whose non-key columns are all NULL, deleted and re-inserted: one event deeper over 6 events
+	{
+		var na []int
+		for _, name := range vNullOps {
+			for i, o := range vOps {
+				if o == name {
+					na = append(na, i)
+				}
+			}
+		}
+		for _, a := range na {
+			for _, b := range na {
+				cases = append(cases, engine.J(vCase{Mode: mode, EPN: 4096, First: []int{a, b}, Depth: depth + 1, Alpha: na}))
+			}
+		}
+		r.Bounds["null_columns_slice"] = map[string]interface{}{"alphabet": vNullOps, "depth": depth + 1}
+	}
 	n := 0
 	r.MapBudget("versions", cases, func(i int, c json.RawMessage, res *engine.Result) {
 		r.Add("versions", c, res)
@@ -98,6 +126,19 @@ func vRun(r *engine.Run, mode string) int {
 			r.Sample(json.RawMessage(res.Data))
 		}
 	})
+	if mode == "c12" {
+		var dc []json.RawMessage
+		for i := 0; i < 16; i++ {
+			dc = append(dc, engine.J(c12DeadlineCase{Shard: i, Shards: 16}))
+		}
+		r.Bounds["deadline_during_diff"] = "every request position of one multi-level diff; the request gets no answer until the connection's deadline (about 2 s, real time) expires"
+		engine.Map("c12-deadline", dc, func(i int, c json.RawMessage, res *engine.Result) {
+			r.Add("c12-deadline", c, res)
+			if res.Data != nil && i == 0 {
+				r.Sample(json.RawMessage(res.Data))
+			}
+		})
+	}
 	if mode == "c11" {
 		// the version names under concurrency: every interleaving (request level, engine/sched.go) of an opener
 		// with a committing writer / a merging open; what s3db_version() reports must reproduce what was seen
@@ -138,7 +179,7 @@ func vWorker(raw json.RawMessage) *engine.Result {
 	must(json.Unmarshal(raw, &c))
 	res := &engine.Result{}
 	var sample interface{}
-	nAlpha := len(vOps)
+	nAlpha := vMainOps
 	if len(c.Alpha) > 0 {
 		nAlpha = len(c.Alpha)
 	}
@@ -338,6 +379,9 @@ func vRunSeq(res *engine.Result, c vCase, ops []int) interface{} {
 			}
 		}
 		switch strings.SplitN(op, ":", 2)[len(strings.SplitN(op, ":", 2))-1] {
+		case "insert-nulls 1":
+			n, err := x.Affected("insert into {T}(a) values(1)")
+			effect = err == nil && n == 1
 		case "insert 1", "insert 2":
 			k := op[len(op)-1:]
 			n, err := x.Affected(fmt.Sprintf("insert into {T}(a,b,c) values(%s,'i%d',%d)", k, step, step))
@@ -579,4 +623,102 @@ func vRunSeq(res *engine.Result, c vCase, ops []int) interface{} {
 	res.States = append(res.States, strings.Join(last.rows, ";"))
 	sort.Strings(res.States)
 	return map[string]interface{}{"ops": names, "versions": len(recs), "pairs_checked": 2*len(recs) - 1}
+}
+
+// ---- C12: a request of the diff that gets no answer before the connection's own deadline -----------------------
+//
+// One diff over a multi-level table (entries_per_node=2, two versions that differ in several subtrees). For every
+// request position k of the diff: s3db_conn.deadline is set about 2 s ahead (real time: the context of a
+// connection is a real context), request k gets no answer until that context is done, everything else answers at
+// once. The query must fail or return the complete answer. The wait is what makes the connection's own context
+// expire in the middle of the walk; an injected "cancelled" error alone does not do that.
+
+type c12DeadlineCase struct {
+	Shard, Shards int
+}
+
+func c12DeadlineWorker(raw json.RawMessage) *engine.Result {
+	var c c12DeadlineCase
+	must(json.Unmarshal(raw, &c))
+	res := &engine.Result{}
+	w := engine.NewWorld()
+	defer w.Close()
+	w.SetClock(engine.T(1000))
+	w1 := w.NewClient("w1")
+	must(w1.Create(engine.TableOpts{EPN: 2}))
+	must(w1.Exec("begin"))
+	for i := 1; i <= 14; i++ {
+		must(w1.Exec("insert into {T}(a,b,c) values(?,?,?)", i, "a", i))
+	}
+	must(w1.Exec("commit"))
+	va, err := w1.Version()
+	must(err)
+	w.SetClock(engine.T(2000))
+	must(w1.Exec("begin"))
+	for _, i := range []int{2, 7, 13} {
+		must(w1.Exec("update {T} set b='changed' where a=?", i))
+	}
+	for i := 15; i <= 20; i++ {
+		must(w1.Exec("insert into {T}(a,b,c) values(?,?,?)", i, "b", i))
+	}
+	must(w1.Exec("delete from {T} where a=5"))
+	must(w1.Exec("commit"))
+	vb, err := w1.Version()
+	must(err)
+	n := 0
+	changes := func() (engine.Rows, error) {
+		n++
+		name := fmt.Sprintf("{T}_dl%d", n)
+		if err := w1.Exec("create virtual table " + name + " using s3db_changes(table='{T}', from='" + va + "', to='" + vb + "')"); err != nil {
+			return nil, fmt.Errorf("create: %w", err)
+		}
+		defer w1.Exec("drop table " + name)
+		return w1.Query("select a,b,c from " + name + " order by a")
+	}
+	want, err := changes()
+	if err != nil || len(want) != 9 {
+		res.Violate("changes-failed", "fault-free s3db_changes gives %v (err %v), 9 rows expected", want, err)
+		return res
+	}
+	mark := w.B.LogLen()
+	changes()
+	nreq := len(w.B.LogSince(mark))
+	for k := c.Shard; k < nreq; k += c.Shards {
+		count := -1
+		fired := ""
+		w1.H.Fault = func(rq *engine.Req) (engine.FaultMode, error) {
+			count++
+			if count != k {
+				return engine.FaultNone, nil
+			}
+			fired = rq.String()
+			return engine.FaultHang, nil
+		}
+		// second resolution: between 1 and 2 s ahead
+		dl := time.Now().UTC().Add(2 * time.Second).Format("2006-01-02 15:04:05")
+		must(w1.Exec("update s3db_conn set deadline=?", dl))
+		got, gerr := changes()
+		w1.H.Fault = nil
+		must(w1.Exec("update s3db_conn set deadline=NULL"))
+		res.Execs++
+		res.Trans++
+		if fired == "" {
+			continue
+		}
+		res.NontrivN++
+		if gerr == nil && !got.Equal(want) {
+			res.Violate("changes-partial-answer-on-fault:deadline", "request #%d of the diff (%s) got no answer before the connection's deadline; s3db_changes returned %d of %d rows WITHOUT an error: %v", k, fired, len(got), len(want), got)
+		}
+		if gerr != nil {
+			res.Outcomes = append(res.Outcomes, "deadline-surfaced")
+		} else {
+			res.Outcomes = append(res.Outcomes, "deadline-masked-complete")
+		}
+		// the connection works again once the deadline is cleared
+		if again, err := changes(); err != nil || !again.Equal(want) {
+			res.Violate("changes-broken-after-deadline", "after the deadline was cleared s3db_changes gives %v (err %v)", again, err)
+		}
+	}
+	res.Data = engine.J(map[string]interface{}{"kind": "deadline during the diff", "requests_of_the_diff": nreq, "shard": c.Shard})
+	return res
 }
